@@ -1169,11 +1169,24 @@ theorem framed_reads (blk : Nat) (hb : 0 < blk) (hb2 : blk < 2147483648) {H : Di
   obtain ⟨h1, h2⟩ := readBody_framed blk recvBlock hb hb2 recvBlock_pos H w body rest hf i hi hd
   exact ⟨_, h1, h2, hi⟩
 
+/-- the transfer coding of a request, if one is named, ends in `chunked`: anything else is refused by `HttpRequest::read`
+(4dff910: the length of such a message cannot be known) -/
+def CodingOk (H : Dic) : Prop := hasHeader H sTransferEncoding = true → teChunked (header H sTransferEncoding) = true
+
+theorem codingOk_of_framed {blk : Nat} {H : Dic} {w body : Bytes} (hf : Framed blk H w body)
+    (hno : teChunked (header H sTransferEncoding) = false → hasHeader H sTransferEncoding = false) : CodingOk H := by
+  intro hh
+  cases hte : teChunked (header H sTransferEncoding) with
+  | true => rfl
+  | false => rw [hno hte] at hh; cases hh
+
+theorem codingOk_of_chunked {H : Dic} (h : teChunked (header H sTransferEncoding) = true) : CodingOk H := fun _ => h
+
 /-- `HttpRequest::read` on the bytes of a request: first line, header lines, body; then whatever follows -/
 theorem readRequest_wire (method target proto : Bytes) (hs : List (Bytes × Bytes))
     (w body rest : Bytes) (hm : WFWord method) (ht : WFWord target) (hp : IsProto proto)
     (hfit : method.length + target.length + 11 ≤ 16001)
-    (hwf : WFHeaders hs) (hf : BodyReads (norm hs) w body) (i : Inp) (hi : Live i)
+    (hwf : WFHeaders hs) (hco : CodingOk (norm hs)) (hf : BodyReads (norm hs) w body) (i : Inp) (hi : Live i)
     (hd : i.data = method ++ [32] ++ target ++ [32] ++ proto ++ crlf ++ headerLines hs ++ crlf ++ w ++ rest) :
     ∃ i' : Inp, readRequest i =
       ({ method := method, resource := target, proto := proto, headers := norm hs, body := body,
@@ -1211,8 +1224,10 @@ theorem readRequest_wire (method target proto : Bytes) (hs : List (Bytes × Byte
   unfold readHeaders
   rw [hrh]
   simp only []
-  unfold norm at hrb
-  rw [hrb]
+  have hnot : ¬ (hasHeader (norm hs) sTransferEncoding = true ∧ teChunked (header (norm hs) sTransferEncoding) = false) := by
+    intro ⟨a, b⟩; rw [hco a] at b; cases b
+  unfold norm at hrb hnot
+  rw [if_neg hnot, hrb]
   rfl
 
 theorem digit_not_space {c : UInt8} (h : IsDigit c) : isSpace c = false ∧ c ≠ 10 := by
@@ -1954,8 +1969,10 @@ theorem serveOne_keep (blk rblk : Nat) (opt : Bool) (q : Request) (p : Plan) (js
     (serveOne blk rblk opt q p js base).keep = keepOf q := by
   unfold serveOne keepOf connValue
   simp only []
-  repeat' split
-  all_goals rfl
+  by_cases h : q.method = sOPTIONS ∧ opt = true
+  · simp [h]
+  · simp only [h, if_false]
+    cases p.kind <;> simp only [] <;> (repeat' split) <;> rfl
 
 theorem serveOne_called (blk rblk : Nat) (opt : Bool) (q : Request) (p : Plan) (js base : Bytes) :
     (serveOne blk rblk opt q p js base).called = !(decide (q.method = sOPTIONS) && opt) := by
@@ -1967,8 +1984,7 @@ theorem serveOne_called (blk rblk : Nat) (opt : Bool) (q : Request) (p : Plan) (
     have : (decide (q.method = sOPTIONS) && opt) = false := by
       cases opt <;> simp_all
     rw [this]
-    repeat' split
-    all_goals rfl
+    cases p.kind <;> simp only [] <;> (repeat' split) <;> rfl
 
 theorem serveOne_bytes (blk rblk : Nat) (opt : Bool) (q : Request) (p : Plan) (js base b : Bytes)
     (hopt : ¬ (q.method = sOPTIONS ∧ opt = true)) (hk : p.kind = .bytes b) :
@@ -2315,8 +2331,9 @@ theorem client_chunked_framed (hs0 : Dic) (hh : Canon hs0) (hnf : NoFraming hs0)
     clientChunkedHeaders (setHeader hs0 sTransferEncoding sChunked) = setHeader hs0 sTransferEncoding sChunked ∧
     isChunked (setHeader hs0 sTransferEncoding sChunked) = true ∧
     Canon (setHeader hs0 sTransferEncoding sChunked) ∧
-    Framed sendBlock (norm ((sHostName, hostport) :: setHeader hs0 sTransferEncoding sChunked))
-      (writeBody true sendBlock body ++ lastChunk) body := by
+    (Framed sendBlock (norm ((sHostName, hostport) :: setHeader hs0 sTransferEncoding sChunked))
+      (writeBody true sendBlock body ++ lastChunk) body ∧
+     CodingOk (norm ((sHostName, hostport) :: setHeader hs0 sTransferEncoding sChunked))) := by
   have hD : Canon (setHeader hs0 sTransferEncoding sChunked) :=
     canon_setHeader hh wf_name_te wf_value_chunked (by unfold FitsLine; decide)
   have hte : dicGet (setHeader hs0 sTransferEncoding sChunked) sTransferEncoding = some sChunked := by
@@ -2352,7 +2369,7 @@ theorem client_chunked_framed (hs0 : Dic) (hh : Canon hs0) (hnf : NoFraming hs0)
         · exact ⟨(hh.wf x (hl2 x h)).2.1.1, (hnf x (hl2 x h)).1⟩)
     rw [hlist]
     have := Framed.chunked (blk := sendBlock) [body] f2.1 (by rw [f1.2]; decide)
-    simpa using this
+    exact ⟨by simpa using this, fun _ => by rw [f1.2]; decide⟩
 
 
 
@@ -2410,6 +2427,11 @@ theorem serializeWith_chunked (blk : Nat) (m : Msg) (hcl : dicGet m.headers sCon
   unfold serializeWith endOf
   rw [sentHeaders_no_cl hcl, hch, hte]; rfl
 
+/-- header lines none of which is a Transfer-Encoding: no coding is named -/
+theorem codingOk_of_absent (hs : List (Bytes × Bytes)) (h : ∀ x ∈ hs, x.2 ≠ [] ∧ capitalized x.1 ≠ sTransferEncoding) :
+    CodingOk (norm hs) := by
+  intro hh; rw [(header_norm_absent sTransferEncoding cap_te hs h).1] at hh; cases hh
+
 /-- `NoFraming` headers (raw list of a request object): no Transfer-Encoding entry -/
 theorem dicGet_te_of_noFraming {hs : Dic} (hnf : NoFraming hs) : dicGet hs sTransferEncoding = none :=
   dicGet_none_of_keys (fun x hx e => (hnf x hx).2 (by rw [e]; exact cap_te))
@@ -2443,5 +2465,34 @@ theorem sentHeaders_put_chunked {D : Dic} (len : Bytes) (hlen : len ≠ []) (hcl
     simp only [List.isEmpty_nil, if_true, cap_cl]
     exact dicRemove_dicSet_absent len (keys_of_dicGet_none hcl)
   · unfold endOf; rw [hte']; rfl
+
+/-- a streamed response whose handler named the chunked coding itself goes out under its own headers, and is not ended by
+the library -/
+theorem streamHeaders_named {h : Dic} {v : Bytes} (hte : dicGet h sTransferEncoding = some v)
+    (hcl : dicGet h sContentLength = none) : streamHeaders h = h ∧ ownChunks h = false := by
+  have ho : ownChunks h = false := by
+    unfold ownChunks hasHeader; rw [cap_te, hte]; simp
+  refine ⟨?_, ho⟩
+  unfold streamHeaders; rw [ho]; simp only [Bool.false_eq_true, if_false]
+  exact sentHeaders_no_cl hcl
+
+/-- a streamed response that names neither a length nor a coding (75c75d0): the library announces the chunked coding and
+ends the stream — the same bytes as for a handler that names the coding and ends the stream by hand -/
+theorem serializeStream_own (blk : Nat) (command : Bytes) (h : Dic) (parts : List Bytes)
+    (hcl : dicGet h sContentLength = none) (hte : dicGet h sTransferEncoding = none) :
+    serializeStream blk command h parts false = serializeStream blk command (setHeader h sTransferEncoding sChunked) parts true := by
+  have ho : ownChunks h = true := by
+    unfold ownChunks hasHeader; rw [cap_te, cap_cl, hte, hcl]; rfl
+  have hte' : dicGet (setHeader h sTransferEncoding sChunked) sTransferEncoding = some sChunked := by
+    have := dicGet_setHeader_same h sTransferEncoding sChunked (by decide)
+    rwa [cap_te] at this
+  have hcl' : dicGet (setHeader h sTransferEncoding sChunked) sContentLength = none := by
+    rw [dicGet_setHeader_other h sTransferEncoding _ sContentLength (by decide) (by rw [cap_te]; decide)]; exact hcl
+  obtain ⟨h1, h2⟩ := streamHeaders_named hte' hcl'
+  unfold serializeStream
+  rw [h1, h2]
+  unfold streamHeaders
+  rw [ho]
+  simp
 
 end AslProofs.HttpFrame
